@@ -175,6 +175,41 @@ def run(p: Program, rep: Report, tier: str) -> None:
                 rep.undecide("R8.2", f"unknown pattern method .{f.attr}")
     if n_apply == 0:
         rep.undecide("R8.2", "no application of the compiled pattern found in Route.matches")
+    # ... and the compiled pattern is what DECIDES: every returning path of matches() that can answer "matched" has established
+    # that the pattern's fullmatch is not None. A path that answers from something else (a literal-route fast path comparing the
+    # request path with an attribute) is right only if that attribute is the route's own text; compared with the FORMAT string of
+    # compile_path it depends on what compile_path puts there (escaped text, '{name}' markers)
+    try:
+        mpaths, _mc, _mi = run_paths(p, matches, route)
+    except Exception as ex_:
+        mpaths = []
+        rep.undecide("R8.2", f"Route.matches not analysable path by path ({ex_})")
+    rep.cfg_paths += len(mpaths)
+    for pa in mpaths:
+        if pa.exit != "return":
+            continue
+        v = pa.value
+        first = v[1][0] if v[0] == "tuple" and v[1] else v
+        if first == ("const", False):
+            continue
+        if any((not t) and f[0] == "cmp" and f[1] == "Is" and "fullmatch" in show(f[2]) for f, t in pa.facts) or any(t and f[0] == "cmp" and f[1] == "IsNot" and "fullmatch" in show(f[2]) for f, t in pa.facts) \
+                or any(t and "fullmatch" in show(f) and f[0] == "call" for f, t in pa.facts):
+            rep.ok("R8.2", "a path of Route.matches that answers 'matched' has established pattern.fullmatch(path) is not None")
+            continue
+        txt = show(first)
+        cp_fn = None
+        try:
+            cp_fn = p.func("baize.routing:compile_path")
+        except Exception:
+            pass
+        escapes = cp_fn is not None and any(isinstance(c_, ast.Call) and ast.unparse(c_.func) in ("re.escape", "escape") for c_ in ast.walk(cp_fn.node))
+        if first[0] == "cmp" and "self.path_format" in txt and escapes:
+            rep.violation("R8.2", construct(matches, text=f"match decided by {txt[:60]} while compile_path escapes the literal text"), where(matches),
+                          f"Route.matches answers `{txt[:60]}` without applying the compiled pattern, and compile_path() passes the literal route text through re.escape before it reaches path_format: "
+                          "a placeholder-free route containing a character that re.escape changes ('/favicon.ico', '/sign-in') never matches its own path - the request falls through to a later route or 404",
+                          path_facts=pa.fact_text(), positive=True)
+        else:
+            rep.undecide("R8.2", f"Route.matches answers `{txt[:60]}` on a path that has not applied the compiled pattern ({'; '.join(pa.fact_text())[:80]}): what decides the match there is not recognised")
     # the parameters are read from the match BY NAME (groupdict); reading them by POSITION (groups(), group(n), match[n]) pairs the
     # n-th placeholder with the n-th capturing group of the whole pattern - wrong as soon as a convertor's own regex contains a
     # capturing group (decimal: `[0-9]+(\.[0-9]+)?`), because that group shifts every later placeholder
